@@ -3,6 +3,7 @@ package props
 import (
 	"encoding/json"
 	"fmt"
+	"runtime"
 	"testing"
 
 	"github.com/Breeze0806/gobinlog/replication"
@@ -219,6 +220,27 @@ func uintClass(v uint64) int {
 func TestC14(t *testing.T) {
 	rec := recorder("C14")
 	defer rec.Flush(t)
+	// documents of more than 2^24 bytes (offsets and sizes that need the fourth byte of the large format):
+	// a 17 MB string in front of, and between, other members
+	if envShard == 2%envNShards {
+		big := &refenc.JNode{K: refenc.JString, S: refenc.Blob{K: 7, S: 17, N: 17<<20 + 5}}
+		one := &refenc.JNode{K: refenc.JInt, I: -70000}
+		tail := &refenc.JNode{K: refenc.JString, S: refenc.Lit([]byte("tail"))}
+		inner := &refenc.JNode{K: refenc.JObject, Keys: []string{"a", "zz"}, Kids: []*refenc.JNode{one, tail}}
+		for i, doc := range []*refenc.JNode{
+			{K: refenc.JArray, Kids: []*refenc.JNode{big, one, tail, inner}},
+			{K: refenc.JObject, Keys: []string{"a", "big", "z"}, Kids: []*refenc.JNode{inner, big, tail}},
+		} {
+			c := CellCase{Col: hist.Column{Type: refenc.TJSON, Len: 4}, Val: hist.Value{J: doc}, Pre: 1, Post: 1}
+			rec.Case(true, fmt.Sprintf("huge-document-%d", i), "document>16MiB")
+			if err := checkCell(c); err != nil {
+				rec.Violation("cell", fmt.Sprintf("huge JSON document %d (a 17 MiB string among other members)", i), "", err)
+				t.Errorf("C14 violation: %v", err)
+				return
+			}
+		}
+		runtime.GC()
+	}
 	rapidCheck(t, c14Property(rec))
 }
 
